@@ -120,8 +120,8 @@ prop("C11",
 
 
 prop("C05",
-     quick=[rapid("TestC05", 50000, shards=4, mem_gb=6), plain("TestC05Scaling", shards=4, mem_gb=6)],
-     thorough=[rapid("TestC05", 400000, shards=16, mem_gb=6), plain("TestC05Scaling", shards=4, mem_gb=6),
+     quick=[rapid("TestC05", 50000, shards=4, mem_gb=6), plain("TestC05Scaling", shards=4, mem_gb=6), plain("TestC05NonFinite", mem_gb=6)],
+     thorough=[rapid("TestC05", 400000, shards=16, mem_gb=6), plain("TestC05Scaling", shards=4, mem_gb=6), plain("TestC05NonFinite", mem_gb=6),
                fuzz("FuzzC05", "120s", mem_gb=16, wall_timeout=900),
                fuzz("FuzzC05", "120s", env={"VERIF_FUZZ_EMPTY_CORPUS": 1}, mem_gb=16, wall_timeout=900)],
      rule="rapid: expressions as byte strings (random bytes incl. invalid UTF-8 and NUL; token soup with hostile lexemes such as U+0080 after an identifier, extreme integers, unterminated delimiters; grammar sentences and their mutants; truncations/splices; deep nestings of every bracket/prefix kind up to 64 KiB; documents nested up to 3000 levels matched by equally deep expressions; extreme integers in every index/slice slot; all-function document-aware expressions with 30% ill-typed choices; large flat documents) x G-doc documents. Oracle inside the target: recover() around Compile, MustCompile, Search (both forms) and SyntaxError rendering; 20 s watchdog per case; allocation envelope 2048 x (|expr|+|doc|+|result|) + 32 x |expr| x (|doc|+|result|) + 16 MiB for inputs > 4 KiB; and the semantic oracle: lexable texts must be accepted iff grammatical (reference Pratt parser = CFG) and grammatical ones must evaluate like the reference model. Plus a dose-response check: 60 input families at size k and 8k, thread CPU time may grow at most 24x (judged only above 1 s of CPU). Thorough adds native coverage-guided fuzzing (go test -fuzz) of the same target, once seeded with the repository's fuzz corpus + hostile constants and once with an empty corpus. Non-trivial: the input lexes completely or belongs to a hostile class; classes: lex-error, parse-error, evaluated-ok, evaluated-error, deep-nesting, extreme-integer, large-doc, out-of-domain (invalid UTF-8 / integers beyond int64).",
@@ -139,8 +139,8 @@ prop("C06",
      min_nontrivial=3000)
 
 prop("C12",
-     quick=[rapid("TestC12", 1000, shards=4, race=True, gomaxprocs=4)],
-     thorough=[rapid("TestC12", 12000, shards=8, race=True, gomaxprocs=4), rapid("TestC12", 6000, shards=4, race=True, gomaxprocs=2), rapid("TestC12", 6000, shards=4, race=True, gomaxprocs=16)],
+     quick=[rapid("TestC12", 1000, shards=4, race=True, gomaxprocs=4), plain("TestC12Representation", shards=4, race=True, gomaxprocs=4)],
+     thorough=[rapid("TestC12", 12000, shards=8, race=True, gomaxprocs=4), rapid("TestC12", 6000, shards=4, race=True, gomaxprocs=2), rapid("TestC12", 6000, shards=4, race=True, gomaxprocs=16), plain("TestC12Representation", shards=4, race=True, gomaxprocs=4)],
      rule="rapid cases (expression, document) from three sources (expressions whose literals are shared by the compiled AST and flow into sort_by/reverse/merge; the C06 templates on unsorted documents; document-aware all-function expressions) plus expressions over a Go struct document (reflection paths; mode 'struct': results compared with the sequential call) x 5 modes (one compiled expression + one shared document; + private documents that differ per goroutine (arrays doubled / truncated; expected result per variant from the reference model); one-shot Search from all goroutines; mixed with concurrent Compile of other expressions; with a concurrent deep reader of the document): 8 goroutines x 20 iterations released by a barrier, binary built with -race (GORACE=halt_on_error: a report fails the run and is attributed to the running case through a breadcrumb file). Oracle: no race report; every goroutine's result equals the sequential result (bag-aware) which equals the reference model; the shared document is unchanged. Non-trivial: at least two goroutines overlapped and the expression reaches a function or projection.",
      technique="concurrent execution of generated cases under the Go race detector + per-goroutine result = sequential result = reference model",
      level_text="The race detector is happens-before based, so coverage is driven by which code paths run concurrently (controlled by the generator) rather than by timing luck; an atomicity violation without a data race is found only if it changes a result in an explored run. The harness does not own the scheduler: reduced strength, see DESIGN.md section 10.",
@@ -148,8 +148,8 @@ prop("C12",
      assumptions=["schedules are not enumerated: the Go scheduler is not controlled by the harness", "a schedule-dependent failure is replayed by re-running the case 200 times under -race"])
 
 prop("C13",
-     quick=[rapid("TestC13", 1500, shards=4), rapid("TestC13Structs", 12000, shards=2), plain("TestProducerConsumerGrid", shards=4)],
-     thorough=[rapid("TestC13", 40000, shards=14, timeout="2h"), rapid("TestC13Structs", 200000, shards=2), plain("TestProducerConsumerGrid", shards=4)],
+     quick=[rapid("TestC13", 1500, shards=4), rapid("TestC13Structs", 12000, shards=2), plain("TestProducerConsumerGrid", shards=4), plain("TestC13Representation")],
+     thorough=[rapid("TestC13", 40000, shards=14, timeout="2h"), rapid("TestC13Structs", 200000, shards=2), plain("TestProducerConsumerGrid", shards=4), plain("TestC13Representation")],
      rule="rapid state machine (t.Repeat): state = pool of <= 6 compiled expressions (literal-sharing expressions, reorder templates, document-aware all-function expressions), pool of <= 6 documents (live objects), one long-lived Parser; actions compile / add document / search(i,j) / repeat / one-shot / parse valid / parse invalid (unclosed raw strings after an escaped quote, bad escapes, every parser error site, random bytes) / parse long-then-short; invariant after every step: every pool document deep-equals its original. Model: each search equals a freshly compiled expression on a deep copy of the original document, the one-shot Search, and the reference model (bag-aware); each reused-parser Parse equals NewParser().Parse (AST dump, error text, SyntaxError fields). Additionally (TestC13Structs): one compiled navigational expression searched twice round over 2-4 documents of different run-time generated struct types must agree with the one-shot Search every time. Non-trivial: a history with >= 2 searches on one compiled expression where an earlier one failed or used another document, or a valid parse after an invalid one on the reused Parser. Distinct by hash of the action trace.",
      technique="stateful model-based testing (rapid state machine) against the model 'fresh Compile / fresh Parser per call' and the reference evaluator",
      level_text="Histories are explored randomly and shrink as one value; the replay file is the action trace.",
